@@ -22,7 +22,7 @@ PARTIAL = [
     "totality of the lexer and of the generated LR driver (9650 generated lines) is not a theorem: mutation fuzzing with catch_unwind only",
     "C23_no_error_nodes assumes that Error nodes are built by grammar actions only (the translator checks that no hand-written file constructs one) "
     "and that the fired alternatives are alternatives of the translated grammars",
-    "C23_scoped_full is REFUTED (four witnesses): the proved C23_scoped_partial covers the variables read by call and ap instructions only "
+    "C23_scoped_full is REFUTED (six witnesses in four classes: iterator used outside its fold; only the first unresolved use of a name is re-checked; sites no callback visits: fail argument, ap-map value, canon peer, lens of :error:): the proved C23_scoped_partial covers the variables read by call and ap instructions only "
     "(triplet, arguments, ap argument, map key, scalars inside their lenses) and for iterator names guarantees only that SOME fold on that name starts earlier; "
     "uses in match/mismatch values and fold iterables are guaranteed only when they are the first unresolved use of their name; "
     "fail arguments, ap-map values, canon peers and lenses of :error: are not checked by the validator at all",
